@@ -72,6 +72,14 @@ type Job = Box<dyn FnOnce() + Send + 'static>;
 /// within 5 s. One long-lived worker serves all calls (a thread per call doubled the run time); a
 /// worker that hangs is abandoned and replaced.
 pub fn with_deadline<T: Send + 'static>(f: impl FnOnce() -> T + Send + 'static) -> Option<Result<T, ()>> {
+    with_deadline_secs(5, f)
+}
+
+/// The same with the deadline given in seconds.
+pub fn with_deadline_secs<T: Send + 'static>(
+    secs: u64,
+    f: impl FnOnce() -> T + Send + 'static,
+) -> Option<Result<T, ()>> {
     use std::sync::{mpsc, Mutex};
     static WORKER: Mutex<Option<mpsc::Sender<Job>>> = Mutex::new(None);
     let (rtx, rrx) = mpsc::channel();
@@ -92,7 +100,7 @@ pub fn with_deadline<T: Send + 'static>(f: impl FnOnce() -> T + Send + 'static) 
         *w = Some(tx);
     }
     w.as_ref().unwrap().send(job).expect("worker alive");
-    match rrx.recv_timeout(std::time::Duration::from_secs(5)) {
+    match rrx.recv_timeout(std::time::Duration::from_secs(secs)) {
         Ok(r) => Some(r),
         Err(_) => {
             *w = None;
